@@ -54,8 +54,8 @@ func c11DNSProcRun(e *c11DNSEnv, c c11DNSProcCase) (classes []string, nontrivial
 	var out []byte
 	var err error
 	o = c11h.Guard(c11h.Bound, func() { out, err = s.processRequest(append([]byte(nil), c.Msg...)) })
-	if o.Hung {
-		return []string{"hung"}, true, o, ""
+	if o.Hung || o.Inconclusive {
+		return []string{"gave-up-waiting"}, true, o, ""
 	}
 	w := &pb.C2SWrapper{}
 	parses := proto.Unmarshal(c.Msg, w) == nil
